@@ -18,7 +18,7 @@ fn pb(v: &Val) -> PathBuf {
     PathBuf::from(OsStr::from_bytes(&v.bytes()))
 }
 
-/// (0 path depth type path_is_symlink) | (1 loop_child) | (2 io_error_path) | (3) other error
+/// (0 path depth type path_is_symlink) | (1 loop_child) | (2 io_error_path) | (3) other error | (5 ()) panic
 fn out_of(r: Result<DirEntry, Error>) -> Val {
     match r {
         Ok(d) => {
@@ -82,7 +82,17 @@ pub fn run_walks(v: &Val) -> Val {
         let names: Vec<Vec<u8>> = c.fld(5).list().iter().map(|n| n.bytes()).collect();
         wb.filter_entry(move |d| !names.iter().any(|n| n.as_slice() == d.file_name().as_bytes()));
     }
-    let serial: Vec<Val> = wb.build().map(out_of).collect();
+    // the iterator may panic (a panic is a finding): keep what was yielded before it and add a marker (5)
+    let mut serial: Vec<Val> = vec![];
+    let walk = wb.build();
+    let res = std::panic::catch_unwind(std::panic::AssertUnwindSafe(|| {
+        for r in walk {
+            serial.push(out_of(r));
+        }
+    }));
+    if res.is_err() {
+        serial.push(Val::L(vec![Val::N(5), Val::L(vec![])]));
+    }
     let acc: Arc<Mutex<Vec<Val>>> = Arc::new(Mutex::new(vec![]));
     wb.build_parallel().run(|| {
         let acc = acc.clone();
